@@ -442,6 +442,7 @@ def C12(tier, seed):
     c = Check("C12", tier, seed)
     binp = build_harness(ALL)
     m_proofs(c, "OrderProofs")
+    m_long(c, binp, tier)          # == &str, round trip and Locale agreement for identifiers of every length up to ~300 bytes
     m_matches(c, binp, tier, "cmp")
     m_cmp(c, binp, tier)
     traces(c, binp, "hist", tier, quick_n=3000)
@@ -705,6 +706,10 @@ def C16(tier, seed):
     li_ok_s += ["und", "UND", "en_US", "eN-lAtN-uS-VaLeNcIa", "und-Latn", "sr-Cyrl-RS-1abc-valencia", "sl-rozaj-nedis", "sl-nedis-rozaj-1994",
                 "de-1996-1901", "ca-valencia-fonipa-alalc97", "en-basiceng-aaaaz-zaaaa"]
     loc_ok_s = pick(loc_ok, cap)
+    # private-use tags that look like singletons or sort after 'x'; repeated variants in front of extensions
+    loc_ok_s += ["en-x-abc-x-xyz", "und-x-x-y", "en-x-x", "en-x-u-t-x-zz", "en-x-t-en-u-ca-x-zzz", "en-u-ca-x-x-u-z", "en-t-h0-x1x-x-t-x-zzz",
+                 "en-valencia-valencia-u-ca-buddhist", "en-US-valencia-VALENCIA-t-h0-hybrid-x-a", "sl-rozaj-1994-rozaj-u-foo-foo-x-b-a-b",
+                 "en-1abc-valencia-1abc-t-de-1996-1996-h0-hybrid"]
     loc_ok_s += [noisy(s) for s in loc_ok_s[: cap // 4]] + ["und", "en-t-h0-hybrid-u-ca-buddhist-x-foo", "en_US_u_hc_h12",
                                                           "und-t-und-h0-hybrid", "en-u-ca-islamic-civil-t-de-AT-1996-k0-dvorak-x-a-b-c"]
     li_ok_s += [noisy(s) for s in li_ok_s[: cap // 4]]
